@@ -795,6 +795,14 @@ XProg(v) ==
          [mk(<<StructL("St", "SB", <<>>, TRUE), XF("PV1", <<>>, "V1"), XF("P2", <<>>, "T2"), XF("Q", <<"T2", "SB">>, "T1")>>, <<>>,
              <<XInj("Inject", <<>>, "T1", <<ItL(1), ItL(2), ItL(3), ItL(4)>>, 1)>>) EXCEPT !.atoms = XAtoms \o <<StructT("SB", "b", <<Fld("A", "V1")>>)>>]
          @@ [naming |-> [x \in {"T2"} |-> "B"]]
+    [] v = "bind-three-sets-deep" ->            \* the binding sits three provider sets below the injector; interface and concrete type are both consumed
+         mk(<<BindL("B", "I1", "*C"), XF("PC", <<>>, "*C"), XF("App", <<"I1", "*C">>, "T1")>>,
+            <<SetD("BarSet", "a", <<ItL(1), ItL(2)>>), SetD("InfraSet", "a", <<ItS(1)>>), SetD("AppSet", "a", <<ItS(2), ItL(3)>>)>>,
+            <<XInj("Inject", <<>>, "T1", <<ItS(3)>>, 1)>>)
+    [] v = "set-through-alias-only-path" ->     \* the package that declares the set is reachable from the injector's package only through a package that re-exports it and does not import wire
+         [mk(<<FuncIn("PW", "b", <<>>, "W1", FALSE, FALSE)>>,
+             <<SetD("SetB", "b", <<ItL(1)>>), [SetD("Default", "c", <<ItS(1)>>) EXCEPT !.grp = "=alias"]>>,
+             <<XInj("Inject", <<>>, "W1", <<ItS(2)>>, 1)>>) EXCEPT !.atoms = XAtoms \o <<TokIn("W1", "d")>>]
     [] v = "same-set-twice-direct" ->          \* one set listed twice in the same call
          mk(<<XF("P2", <<>>, "T2"), XF("P1", <<"T2">>, "T1")>>, <<SetD("SetA", "a", <<ItL(1)>>)>>,
             <<XInj("Inject", <<>>, "T1", <<ItS(1), ItL(2), ItS(1)>>, 1)>>)
@@ -816,7 +824,8 @@ XVariants == {"star-foreign-tag-missing", "star-foreign-tag-ok", "two-files-firs
               "sets-in-injector-file", "same-provider-twice-direct", "same-provider-twice-in-set",
               "cycle-through-pointer-types", "cycle-behind-bound-interface", "bind-to-field-type", "variadic-dup-param", "arg-returned-directly-full-sig",
               "struct-both-forms-plus-superfluous", "same-name-packages-one-unused", "blank-param-conflicts-with-set", "embed-in-injector-file", "same-name-packages-poorer-set", "multi-name-var-sets-bind", "multi-name-var-sets-badsig",
-              "value-in-shared-set", "two-files-first-unused", "structlit-dup-fields", "foreign-struct-sole-reference"}
+              "value-in-shared-set", "two-files-first-unused", "structlit-dup-fields", "foreign-struct-sole-reference",
+              "bind-three-sets-deep", "set-through-alias-only-path"}
 FamilyX(p, vs) == \E v \in vs : p = XProg(v)
 
 (* ======================================================================== *)
